@@ -23,6 +23,7 @@ ASSUMPTIONS = ["vf/ref/bip32_ref.py (ecref point maths, own serialisation), vali
                "int()-style leniency in path components is not examined"]
 OBLIGATIONS = {
     "concurrent_calls": "interleavings of two concurrent calls (single-case checks in two threads, cold and after warm-up calls)",
+    "long_history": "operations executed in one long history (800 payloads, forward / forward / reverse)",
     "history_sequences": "operation sequences (non-initial process states) explored",
     "hardened_edge": "a hardened child derived", "public_edge": "a child derived from an xpub", "hardened_from_xpub": "a hardened child "
     "requested from an xpub (must raise)", "index_max_nonhardened": "index 2^31-1", "stepwise": "a depth>=2 key derived step by step "
@@ -173,6 +174,20 @@ def run_case(kind, case):
     return CASES[kind](case)
 
 
+def long_ops(job):
+    """root extended private keys of 400 different seeds (valid), each followed by the same payload with a zero key (invalid):
+    serialising a root xprv needs no curve arithmetic, so the history is long and cheap"""
+    import hashlib
+    ops = []
+    for i in range(400):
+        sd = hashlib.sha256(b"c09-long-%d-%d" % (job["seed"], i)).digest()
+        root = R.root(sd, bool(i % 2))
+        p = B58.check_decode(root.xprv())
+        ops.append(("payload", {"payload": p.hex(), "field": "valid", "what": f"valid root xprv #{i}"}))
+        ops.append(("payload", {"payload": (p[:46] + bytes(32)).hex(), "field": "key", "what": "zero key"}))
+    return ops
+
+
 def seq_ops(job):
     """the same seed under both networks, from root and from an intermediate key, in every order"""
     sd = seeds(job["seed"])[0].hex()
@@ -216,6 +231,8 @@ def jobs(tier, seed):
             js.append({"name": f"reject/{b}/{sh}", "part": "reject", "base": b, "shard": [sh, 4], "weight": 5})
     from vf.runner import seq_jobs
     js += seq_jobs(8, weight=10)
+    from vf.runner import long_jobs
+    js += long_jobs()
     from vf.runner import concur_jobs
     js += concur_jobs(2 if tier == "quick" else len(CONCUR_SCEN))
     return js
@@ -227,6 +244,9 @@ def run_job(job):
         ops = seq_ops(dict(job, shard=[0, 1]))
         scens = [{"threads": [ops[i] for i in sc[0]], "warm": [ops[i] for i in sc[1]], "post": [ops[i] for i in (sc[2] if len(sc) > 2 else ())]} for sc in CONCUR_SCEN]
         return run_concur_job(job, scens, run_case, PROPERTY, CONCUR_FILES)
+    if job["part"] == "longhist":
+        from vf.runner import run_long_job
+        return run_long_job(job, long_ops(job), run_case)
     if job["part"] == "seq":
         from vf.runner import run_seq_job
         return run_seq_job(job, seq_ops(job), run_case)
